@@ -57,21 +57,18 @@ pub mod stubs {
         unsafe { core::str::from_utf8_unchecked(&b[..n]) }
     }
     pub fn trim_ascii(s: &str) -> &str { trim_end_ascii(trim_start_ascii(s)) }
-    /// the pattern as bytes: P is &str (16 bytes), &String (8 bytes) or char (4 bytes); `buf` receives a char's UTF-8 encoding
-    fn as_str_pat<P: Pattern>(pat: &P) -> &'static str {
+    /// the pattern as a string: P is &str (16 bytes), &String (8 bytes) or char (4 bytes, encoded into `buf`)
+    fn pat_str<'a, P: Pattern>(pat: &'a P, buf: &'a mut [u8; 4]) -> &'a str {
         let n = core::mem::size_of::<P>();
         if n == core::mem::size_of::<&str>() {
-            unsafe { core::mem::transmute_copy::<P, &'static str>(pat) }
+            unsafe { core::mem::transmute_copy::<P, &'a str>(pat) }
         } else if n == core::mem::size_of::<&String>() {
-            let r: &'static String = unsafe { core::mem::transmute_copy::<P, &'static String>(pat) };
+            let r: &'a String = unsafe { core::mem::transmute_copy::<P, &'a String>(pat) };
             r.as_str()
         } else {
             assert!(n == 4, "unsupported Pattern type in string stub");
             let c: char = unsafe { core::mem::transmute_copy::<P, char>(pat) };
-            // chars the harness alphabets use as patterns (ASCII and the few separators MathCAT searches for)
-            match c { '.' => ".", ',' => ",", ' ' => " ", '-' => "-", '\'' => "'", '\u{a0}' => "\u{a0}", '\u{202f}' => "\u{202f}",
-                      '0' => "0", '1' => "1", '2' => "2", '3' => "3", '4' => "4", '5' => "5", '6' => "6", '7' => "7", '8' => "8", '9' => "9",
-                      _ => { assert!(false, "char pattern outside the stub's table"); "" } }
+            c.encode_utf8(buf)
         }
     }
     fn find_bytes(b: &[u8], p: &[u8]) -> Option<usize> {
@@ -87,15 +84,18 @@ pub mod stubs {
     }
     /// str::find with a &str pattern
     pub fn find<P: Pattern>(s: &str, pat: P) -> Option<usize> {
-        let p = as_str_pat(&pat); core::mem::forget(pat);
+        let mut buf = [0u8; 4];
+        let p = pat_str(&pat, &mut buf);
         find_bytes(s.as_bytes(), p.as_bytes())
     }
     pub fn contains<P: Pattern>(s: &str, pat: P) -> bool {
-        let p = as_str_pat(&pat); core::mem::forget(pat);
+        let mut buf = [0u8; 4];
+        let p = pat_str(&pat, &mut buf);
         find_bytes(s.as_bytes(), p.as_bytes()).is_some()
     }
     pub fn starts_with<P: Pattern>(s: &str, pat: P) -> bool {
-        let p = as_str_pat(&pat); core::mem::forget(pat);
+        let mut buf = [0u8; 4];
+        let p = pat_str(&pat, &mut buf);
         let (b, p) = (s.as_bytes(), p.as_bytes());
         if p.len() > b.len() { return false; }
         let mut j = 0;
@@ -103,7 +103,8 @@ pub mod stubs {
         true
     }
     pub fn ends_with<P: Pattern>(s: &str, pat: P) -> bool {
-        let p = as_str_pat(&pat); core::mem::forget(pat);
+        let mut buf = [0u8; 4];
+        let p = pat_str(&pat, &mut buf);
         let (b, p) = (s.as_bytes(), p.as_bytes());
         if p.len() > b.len() { return false; }
         let off = b.len() - p.len();
